@@ -28,6 +28,7 @@ structure Cs where
   ext : Bool := false     -- most recent type 0/1/2 chunk had the extended timestamp field
   part : Bytes := []      -- payload bytes of the message being assembled
   open_ : Bool := false   -- a message is being assembled
+  have_ : Bool := false   -- a type 0 header has been seen on this chunk stream
 deriving Repr, DecidableEq, Inhabited
 
 structure St where
@@ -56,85 +57,109 @@ def splitAggregate (csid aggTs : Nat) : Nat → Bytes → Option Nat → Option 
                          ts := (aggTs + ts + u32 - f) % u32, payload := rest.take len } :: ms)
   | _, _, _ => none
 
-/-- read one chunk; `none` = input ends inside the chunk (or is not a chunk stream) -/
-def readChunk (s : St) (inp : Bytes) : Option (St × List Message × Bytes) :=
-  match inp with
+/-- §5.3.1.1 chunk basic header: format, chunk stream id (1, 2 or 3 byte form), rest -/
+def basicHeader : Bytes → Option (Nat × Nat × Bytes)
   | [] => none
   | b0 :: r0 =>
-    let fmt := b0.toNat / 64
-    let low := b0.toNat % 64
-    -- §5.3.1.1 basic header: 1, 2 or 3 bytes
-    let basic : Option (Nat × Bytes) :=
-      match low, r0 with
-      | 0, x :: r => some (x.toNat + 64, r)
-      | 0, _ => none
-      | 1, x :: y :: r => some (y.toNat * 256 + x.toNat + 64, r)
-      | 1, _ => none
-      | n, r => some (n, r)
-    match basic with
-    | none => none
-    | some (csid, r1) =>
-      let c := s.get csid
-      -- §5.3.1.2 message header; yields the updated inherited fields, the raw 24-bit field, and
-      -- whether this chunk begins a message
-      let starts := !c.open_
-      let hdr : Option (Cs × Option Nat × Bytes) :=
-        match fmt, r1 with
-        | 0, t0 :: t1 :: t2 :: l0 :: l1 :: l2 :: ty :: i0 :: i1 :: i2 :: i3 :: r =>
-          some ({ c with len := rd24 l0 l1 l2, typ := ty.toNat,
-                         msid := i0.toNat + i1.toNat * 256 + i2.toNat * 65536 + i3.toNat * 16777216 },
-                some (rd24 t0 t1 t2), r)
-        | 1, t0 :: t1 :: t2 :: l0 :: l1 :: l2 :: ty :: r =>
-          some ({ c with len := rd24 l0 l1 l2, typ := ty.toNat }, some (rd24 t0 t1 t2), r)
-        | 2, t0 :: t1 :: t2 :: r => some (c, some (rd24 t0 t1 t2), r)
-        | 3, r => some (c, none, r)
-        | _, _ => none
-      match hdr with
+    if b0.toNat % 64 = 0 then
+      (match r0 with
+       | x :: r => some (b0.toNat / 64, x.toNat + 64, r)
+       | _ => none)
+    else if b0.toNat % 64 = 1 then
+      (match r0 with
+       | x :: y :: r => some (b0.toNat / 64, y.toNat * 256 + x.toNat + 64, r)
+       | _ => none)
+    else some (b0.toNat / 64, b0.toNat % 64, r0)
+
+/-- §5.3.1.2 chunk message header. Returns the inherited fields as updated by this header and the
+    raw 24-bit timestamp field (`none` for type 3). Legality (what a conforming encoder may send):
+    types 0/1/2 only begin a message; types 1/2/3 need an earlier message on the chunk stream. -/
+def messageHeader (fmt : Nat) (c : Cs) (r1 : Bytes) : Option (Cs × Option Nat × Bytes) :=
+  if fmt = 0 then
+    (match r1 with
+     | t0 :: t1 :: t2 :: l0 :: l1 :: l2 :: ty :: i0 :: i1 :: i2 :: i3 :: r =>
+       if c.open_ then none else
+       some ({ c with len := rd24 l0 l1 l2, typ := ty.toNat, have_ := true,
+                      msid := i0.toNat + i1.toNat * 256 + i2.toNat * 65536 + i3.toNat * 16777216 },
+             some (rd24 t0 t1 t2), r)
+     | _ => none)
+  else if fmt = 1 then
+    (match r1 with
+     | t0 :: t1 :: t2 :: l0 :: l1 :: l2 :: ty :: r =>
+       if c.open_ ∨ c.have_ = false then none else
+       some ({ c with len := rd24 l0 l1 l2, typ := ty.toNat }, some (rd24 t0 t1 t2), r)
+     | _ => none)
+  else if fmt = 2 then
+    (match r1 with
+     | t0 :: t1 :: t2 :: r =>
+       if c.open_ ∨ c.have_ = false then none else some (c, some (rd24 t0 t1 t2), r)
+     | _ => none)
+  else if c.have_ = false then none else some (c, none, r1)
+
+/-- §5.3.1.3 extended timestamp and the timestamp bookkeeping of §5.3.1.2.
+    Type 0: the field (or, when it is 0xFFFFFF, the extended field, which then is ≥ 0xFFFFFF) is the
+    absolute timestamp. Types 1/2: the field is a delta; deltas ≥ 0xFFFFFF are outside the property
+    and rejected. Type 3: carries the extended field iff the most recent type 0/1/2 chunk did, with
+    the same value; when it begins a message the previous delta is repeated. -/
+def timestamps (fmt : Nat) (starts : Bool) (c1 : Cs) (field : Option Nat) (r2 : Bytes) : Option (Cs × Bytes) :=
+  match field with
+  | some v =>
+    if fmt = 0 then
+      if v = 16777215 then
+        (match r2 with
+         | e0 :: e1 :: e2 :: e3 :: r =>
+           let t := rd32 e0 e1 e2 e3
+           if t < 16777215 then none else some ({ c1 with msgTs := t, delta := t, ext := true }, r)
+         | _ => none)
+      else some ({ c1 with msgTs := v, delta := v, ext := false }, r2)
+    else
+      if v = 16777215 then none
+      else some ({ c1 with msgTs := (c1.msgTs + v) % u32, delta := v, ext := false }, r2)
+  | none =>
+    let c2 := if starts then { c1 with msgTs := (c1.msgTs + c1.delta) % u32 } else c1
+    if c1.ext then
+      (match r2 with
+       | e0 :: e1 :: e2 :: e3 :: r => if rd32 e0 e1 e2 e3 = c1.delta then some (c2, r) else none
+       | _ => none)
+    else some (c2, r2)
+
+/-- chunk data (min(remaining, chunk size) bytes) and message completion; §5.4.1 Set Chunk Size takes
+    effect for the chunks after it; aggregate messages are delivered as their sub-messages -/
+def chunkData (s : St) (csid : Nat) (c2 : Cs) (r3 : Bytes) : Option (St × List Message × Bytes) :=
+  let remaining := c2.len - c2.part.length
+  let n := if remaining < s.chunkSize then remaining else s.chunkSize
+  if r3.length < n then none else
+  let part := c2.part ++ r3.take n
+  let rest := r3.drop n
+  if part.length = c2.len then
+    let done := { c2 with part := [], open_ := false }
+    if c2.typ = 1 then
+      (match part with
+       | [a, b, c', d] =>
+         let v := rd32 a b c' d
+         if v = 0 then none
+         else some ({ s with chunkSize := v }.put csid done,
+                    [{ csid := csid, typ := c2.typ, msid := c2.msid, ts := c2.msgTs, payload := part }], rest)
+       | _ => none)
+    else if c2.typ = 22 then
+      match splitAggregate csid c2.msgTs part.length part none with
+      | some ms => some (s.put csid done, ms, rest)
       | none => none
-      | some (c1, field, r2) =>
-        -- §5.3.1.3 extended timestamp
-        let hasExt := match field with
-          | some v => v == 16777215
-          | none => c1.ext
-        let extv : Option (Option Nat × Bytes) :=
-          if hasExt then
-            (match r2 with
-             | e0 :: e1 :: e2 :: e3 :: r => some (some (rd32 e0 e1 e2 e3), r)
-             | _ => none)
-          else some (none, r2)
-        match extv with
-        | none => none
-        | some (ev, r3) =>
-          -- the timestamp / delta value this chunk states
-          let stated : Option Nat := match field with
-            | some v => some (if v == 16777215 then ev.getD v else v)
-            | none => none
-          let c2 : Cs :=
-            if fmt = 0 then { c1 with msgTs := stated.getD 0, delta := stated.getD 0, ext := hasExt }
-            else if fmt = 1 ∨ fmt = 2 then
-              { c1 with msgTs := (c1.msgTs + stated.getD 0) % u32, delta := stated.getD 0, ext := hasExt }
-            else if starts then { c1 with msgTs := (c1.msgTs + c1.delta) % u32 }
-            else c1
-          -- chunk data: min(remaining, chunk size)
-          let remaining := c2.len - c2.part.length
-          let n := if remaining < s.chunkSize then remaining else s.chunkSize
-          if r3.length < n then none else
-          let part := c2.part ++ r3.take n
-          let rest := r3.drop n
-          if part.length = c2.len then
-            let s' := if c2.typ = 1 then
-                (match part with
-                 | a :: b :: c' :: d :: _ => { s with chunkSize := rd32 a b c' d }
-                 | _ => s)
-              else s
-            let done := { c2 with part := [], open_ := false }
-            let whole : Message := { csid := csid, typ := c2.typ, msid := c2.msid, ts := c2.msgTs, payload := part }
-            if c2.typ = 22 then
-              match splitAggregate csid c2.msgTs part.length part none with
-              | some ms => some (s'.put csid done, ms, rest)
-              | none => none
-            else some (s'.put csid done, [whole], rest)
-          else some (s.put csid { c2 with part := part, open_ := true }, [], rest)
+    else some (s.put csid done, [{ csid := csid, typ := c2.typ, msid := c2.msid, ts := c2.msgTs, payload := part }], rest)
+  else some (s.put csid { c2 with part := part, open_ := true }, [], rest)
+
+/-- read one chunk; `none` = the input ends inside the chunk or is not a conforming chunk stream -/
+def readChunk (s : St) (inp : Bytes) : Option (St × List Message × Bytes) :=
+  match basicHeader inp with
+  | none => none
+  | some (fmt, csid, r1) =>
+    let c := s.get csid
+    match messageHeader fmt c r1 with
+    | none => none
+    | some (c1, field, r2) =>
+      match timestamps fmt (!c.open_) c1 field r2 with
+      | none => none
+      | some (c2, r3) => chunkData s csid c2 r3
 
 def readAll : Nat → St → Bytes → List Message → Option (List Message)
   | _, _, [], acc => some acc
